@@ -217,5 +217,6 @@ void run_rotations ();
 void run_frames ();
 void run_frames_scaled (); // c09_scaled.cpp: stages frames-scaled, nextframe-general
 void run_ext ();           // c09_ext.cpp: stages aliased-arguments, rotations-mixed-base, rotations-big-angles
+void run_dirty ();         // c09_dirty.cpp: stage set-on-dirty-object
 
 } // namespace c09
